@@ -62,7 +62,8 @@ def fixture():
         C("c1", [P("p2", 3), C("c2", [P("p3", 3)])], quals=[("q2", 6)]),
         L("l1", [P(None, 5)]),
         F("f1", None), F("f2", "/aasx/x.txt"), F("f3", "http://ext/x.txt"), F("f4", "/aasx/missing.txt"),
-        B("b1", 1), B("b2", None)]}
+        B("b1", 1), B("b2", None), B("b3", 1, ctype=2), F("f5", "/aasx/x.txt", ctype=2),
+        C("c3", []), C("c4", []), C("c5", []), C("c6", [])]}
     sm2 = {"k": "sm", "id": SM2, "ids": "Sm2", "tok": 2, "quals": [], "elems": []}
     sh1 = {"k": "shell", "id": AAS1, "ids": "Sh1", "tok": 1, "refs": [SM1, "urn:dangling", CD1]}
     sh2 = {"k": "shell", "id": AAS2, "ids": "Sh2", "tok": 2, "refs": []}
@@ -204,7 +205,9 @@ def raw_bodies():
            ("multipart-noboundary", ("raw", "multipart/form-data", b"--x\r\ngarbage", "noctype")),
            ("json-charset", ("raw", "application/json; charset=utf-8", b"[", "bad")),
            ("xml-wrong-ns", ("raw", X, b'<submodel xmlns="urn:x"><id>a</id></submodel>', "bad")),
-           ("xml-entity", ("raw", X, b'<!DOCTYPE a [<!ENTITY e "x">]><a>&e;</a>', "bad"))]
+           ("xml-entity", ("raw", X, b'<!DOCTYPE a [<!ENTITY e "x">]><a>&e;</a>', "bad")),
+           ("deep-json-100000", ("raw", J, b"[" * 100000, "bad")), ("deep-json-object", ("raw", J, b'{"a":' * 50000, "bad")),
+           ("deep-xml", ("raw", X, b"<a>" * 20000, "bad"))]
     for lab, d in [("array", [smj]), ("empty-array", []), ("number", 5), ("null", None), ("string", "x"),
                    ("empty-object", {}), ("wrongtype-id", dict(smj, id=5)),
                    ("missing-id", {k: v for k, v in smj.items() if k != "id"}),
@@ -215,6 +218,47 @@ def raw_bodies():
                    ("dup-idshort", dict(smj, submodelElements=[smj["submodelElements"][0]] * 2)),
                    ("deep-json", json.loads("[" * 200 + "]" * 200))]:
         out.append((lab, ("raw", J, json.dumps(d).encode(), "bad")))
+    return out
+
+
+def defective_bodies():
+    """documents of the right class whose top-level object is fine but which contain a defective part:
+    {expected class: [(label, content type, bytes)]}"""
+    J, X = "application/json", "application/xml"
+    out = {}
+    good = {"Submodel": VALUES[0][1], "AssetAdministrationShell": dict(VALUES[2][1], id=AAS1),
+            "ConceptDescription": VALUES[5][1], "SubmodelElement": dict(C("c1", [P("p2", 7)], tok=7), k="elem")}
+    bad_prop = {"modelType": "Property", "idShort": "zz9"}                       # valueType missing
+    bad_op = {"modelType": "Operation", "idShort": "op9", "inputVariables": [{"value": bad_prop}]}
+    for cls, a in good.items():
+        d = json.loads(G.to_json_bytes(G.mk_obj(a)))
+        variants = [("langstring", dict(d, description=[{"language": "en"}])),
+                    ("langstring-tag", dict(d, description=[{"language": "not a tag!", "text": "x"}])),
+                    ("displayname-type", dict(d, displayName=[5]))]
+        if cls == "Submodel":
+            variants += [("nested-element", dict(d, submodelElements=d["submodelElements"] + [bad_prop])),
+                         ("operation-variable", dict(d, submodelElements=[bad_op])),
+                         ("qualifier", dict(d, qualifiers=[{"type": "q"}]))]
+        if cls == "SubmodelElement":
+            variants += [("nested-element", dict(d, value=d["value"] + [bad_prop])),
+                         ("operation-variable", dict(d, value=[bad_op])), ("qualifier", dict(d, qualifiers=[{"type": "q"}]))]
+        if cls == "AssetAdministrationShell":
+            variants += [("submodel-ref", dict(d, submodels=[{"type": "ModelReference", "keys": []}])),
+                         ("asset-information", dict(d, assetInformation=dict(d["assetInformation"], specificAssetIds=[{"name": "n"}])))]
+        out[cls] = [(f"defective-{lab}-json", J, json.dumps(v).encode()) for lab, v in variants]
+        from lxml import etree
+        root = etree.fromstring(G.to_xml_bytes(G.mk_obj(a)))
+        for t in root.iter(G.NS + "text"):
+            t.tag = G.NS + "txet"                      # a lang string without its mandatory text
+            out[cls].append(("defective-langstring-xml", X, etree.tostring(root)))
+            break
+        if cls in ("Submodel", "SubmodelElement"):
+            root = etree.fromstring(G.to_xml_bytes(G.mk_obj(a)))
+            for p in root.iter(G.NS + "property"):
+                vt = p.find(G.NS + "valueType")
+                p.remove(vt)                           # a nested Property without its mandatory valueType
+                break
+            out[cls].append(("defective-nested-element-xml", X, etree.tostring(root)))
     return out
 
 
@@ -231,6 +275,9 @@ def base_request(rule, method="GET"):
     return req
 
 
+LIST_EPS = {"get_aas_all", "get_aas_all_reference", "get_aas_submodel_refs", "get_submodel_all", "get_submodel_all_metadata",
+            "get_submodel_all_reference", "get_submodel_submodel_elements", "get_submodel_submodel_elements_metadata",
+            "get_submodel_submodel_elements_reference", "get_concept_description_all"}
 VCLASS = {"shell": "AssetAdministrationShell", "sm": "Submodel", "cd": "ConceptDescription", "elem": "SubmodelElement",
           "qual": "Qualifier", "ref": "ModelReference", "ai": "AssetInformation"}
 
@@ -250,6 +297,8 @@ def matrix(routes, rng, full, expects=None):
         if not ms:
             anym.add(rule)
     RB = raw_bodies()
+    DB = defective_bodies()
+    ep_of0 = {(rule, m): ep for (rule, ms, ep) in routes for m in ms}
     out = []
     for rule in rules:
         names = re.findall(r"<(?:\w+:)?(\w+)>", rule)
@@ -272,6 +321,7 @@ def matrix(routes, rng, full, expects=None):
                         bodies = [("upload-ok", ("upload", "/aasx/up.txt", (0, 2))), ("upload-relname", ("upload", "up.txt", (0, 2))),
                                   ("upload-noname", ("upload", None, (0, 2))), ("upload-nofile", ("upload", "/aasx/up.txt", None)),
                                   ("upload-mime", ("upload", "/aasx/up.txt", (1, 2))), ("upload-samename", ("upload", "/aasx/x.txt", (0, 2))),
+                                  ("upload-longname", ("upload", "/" + "a" * 2100, (0, 2))), ("upload-ctrlname", ("upload", "/a\x01b", (0, 2))),
                                   ("missing", ("none",)), RB[10], RB[11], RB[12]]
                     elif vlab == "valid" or vlab.startswith("path:") or full:
                         bodies = RB + [(f"{lab}-{fmt}", ("val", fmt, v)) for lab, v in VALUES for fmt in ("json", "xml", "textxml")]
@@ -279,6 +329,19 @@ def matrix(routes, rng, full, expects=None):
                         bodies = [RB[0], RB[3]] + [(f"{lab}-json", ("val", "json", v)) for lab, v in VALUES[::3]]
                 for blab, body in bodies:
                     out.append(dict(base, body=body, cls=f"{vlab}|body:{blab}"))
+                want0 = (expects or {}).get(ep_of0.get((rule, m)))
+                if vlab == "valid" and want0 in DB:
+                    # a defective part inside a document of the right class, at every level option
+                    for blab, ct, data in DB[want0]:
+                        for lev in (None, "core", "deep"):
+                            if lev == "core" and any(t in blab for t in ("qualifier", "submodel-ref")) and m != "POST" or \
+                                    (lev == "core" and ("qualifier" in blab or blab == "defective-nested-element-xml")):
+                                continue        # qualifiers / submodel references are not part of the core level
+                            out.append(dict(base, body=("raw", ct, data, "bad"), query=[("level", lev)] if lev else [],
+                                            cls=f"valid|body:{blab}|level:{lev}"))
+                if vlab == "valid" and routed and m in ("GET", "POST"):
+                    out.append(dict(base, host="a..b", cls="badhost"))
+                    out.append(dict(base, host="a..b", accept=ACCEPTS[2], cls="badhost|accept:xml"))
                 if routed and any(t in vlab for t in ("ctrlchar", "nonascii", "nonutf8", "xmlbad")):
                     for acc in ACCEPTS[2:4]:
                         out.append(dict(base, accept=acc, cls=f"{vlab}|accept:{acc[0]}"))
@@ -305,6 +368,17 @@ def matrix(routes, rng, full, expects=None):
             r["sorted"] = True
             if any(k in ("limit", "cursor") for k, _ in r["query"]):
                 r["oracle_only"] = "reference sets are listed in hash order"
+        ep = ep_of.get((r["rule"], "GET" if r["method"] == "HEAD" else r["method"]))
+        if r["method"] in ("GET", "HEAD") and ep in LIST_EPS and r.get("query"):
+            import httpcorr as H
+            bad = [k for k, v in r["query"] if k in ("limit", "cursor") and H.int_label(v)[0] in ("bad", "huge")]
+            ql = r.get("qlabels", {})
+            if ep in ("get_aas_all", "get_aas_all_reference"):
+                bad += ["assetIds"] * sum(1 for l in ql.get("assetIds", []) if l != "ok")
+            if ep.startswith("get_submodel_all") and ql.get("semanticId", "ok") != "ok":
+                bad.append("semanticId")
+            if bad:
+                r["must_reject"] = "malformed query value (" + ", ".join(sorted(set(bad))) + ")"
         if r.get("path") == "r2" and r["method"] == "POST" and r["rule"].endswith("<id_short_path:id_shorts>"):
             r["oracle_only"] = "an AnnotatedRelationshipElement is a namespace (annotations), modelled as a leaf"
         b = r["body"]
@@ -337,18 +411,17 @@ def renames(req):
 def random_history(rng, pool, n, backed=False):
     """n requests sampled from the matrix pool; the store evolves (requests that were generated
     against the fixture now meet deleted, replaced and newly created resources).  Identifier-changing
-    PUTs of nested elements are left out (their later merges are outside the model, see Http.v)."""
+    PUTs of identifiables are left out on a local-file store (open finding, outside the model)."""
     out = []
     while len(out) < n:
         r = rng.choice(pool)
         if r.get("oracle_only"):
             continue
-        if renames(r) and r["body"][2]["k"] == "elem":
-            continue
-        if backed and (renames(r) or (r["method"] == "POST" and r.get("path") == "l1")):
+        if backed and (renames(r) and r["body"][2]["k"] != "elem" or (r["method"] == "POST" and r.get("path") == "l1")):
             continue    # open findings on a local-file store that are outside the model (see scenarios())
         if backed and r["rule"] in ("/shells", "/submodels", "/concept-descriptions") and r["method"] in ("GET", "HEAD"):
             r = dict(r, query=[(k, v) for (k, v) in r["query"] if k not in ("limit", "cursor")])  # directory order
+            r.pop("must_reject", None)
         out.append(r)
     return out
 
@@ -445,3 +518,60 @@ def big_listing(n=130):
                 if cur > n + lim:
                     break
     return objs, reqs
+
+
+def query_combinations(routes, expects=None):
+    """malformed query values combined with filters that may keep the server from ever looking at them: another
+    filter that matches nothing, limit=0, a cursor beyond the listing, an earlier well-formed value that matches
+    nothing.  Meant to be run against an EMPTY store as well as against the fixture."""
+    out = []
+    shield = [[], [("idShort", "nope")], [("limit", "0")], [("cursor", "50")], [("limit", "0"), ("cursor", "3")]]
+    ok_aid = _sad({"name": "n", "value": "v"})
+    for (rule, ms, ep) in routes:
+        if "GET" not in ms or ep not in LIST_EPS:
+            continue
+        base = base_request(rule, "GET")
+        for qlab, q, ql in QUERIES:
+            bad_label = any(l != "ok" for l in ql.get("assetIds", [])) or ql.get("semanticId", "ok") != "ok"
+            if not (bad_label or qlab.startswith(("limit-", "cursor-", "xmlbad-limit"))):
+                continue
+            for sh in shield:
+                if any(k in dict(q) for k, _ in sh):
+                    continue
+                out.append(dict(base, query=sh + q, qlabels=ql, cls=f"query:{qlab}|with:{'+'.join(k for k, _ in sh) or 'nothing'}"))
+            if "assetIds" in ql:
+                out.append(dict(base, query=[("assetIds", ok_aid)] + q, qlabels={"assetIds": ["ok"] + ql["assetIds"]},
+                                cls=f"query:{qlab}|after-valid-assetIds"))
+    # label the ones that must be rejected with the same rule as the matrix
+    ep_of = {(rule, m): ep for (rule, ms, ep) in routes for m in ms}
+    import httpcorr as H
+    for r in out:
+        ep = ep_of.get((r["rule"], "GET"))
+        bad = [k for k, v in r["query"] if k in ("limit", "cursor") and H.int_label(v)[0] in ("bad", "huge")]
+        ql = r.get("qlabels", {})
+        if ep in ("get_aas_all", "get_aas_all_reference"):
+            bad += ["assetIds"] * sum(1 for l in ql.get("assetIds", []) if l != "ok")
+        if ep.startswith("get_submodel_all") and ql.get("semanticId", "ok") != "ok":
+            bad.append("semanticId")
+        if bad:
+            r["must_reject"] = "malformed query value (" + ", ".join(sorted(set(bad))) + ")"
+        if r["rule"].endswith("submodel-refs"):
+            r["sorted"] = True
+            r["oracle_only"] = "reference sets are listed in hash order"
+    return out
+
+
+def repeat_after_write():
+    """creating requests, each followed (by run_history(repeat_created=True)) by the identical request: same URL
+    string, same application object.  Every parent path string is used here for the first time in the process
+    (c3..c6 occur nowhere else), with a collection resp. a leaf as the first child created below it."""
+    el = "/submodels/<base64url:submodel_id>/submodel-elements/<id_short_path:id_shorts>"
+    mk = lambda path, body, cls: {"rule": el, "method": "POST", "accept": (None, "json"), "query": [], "sm": b64(SM1),
+                                  "path": path, "body": ("val", "json", body), "cls": cls}
+    get = lambda path: {"rule": el, "method": "GET", "accept": (None, "json"), "query": [], "sm": b64(SM1), "path": path,
+                        "body": ("none",), "cls": "read-after-write"}
+    coll = dict(C("n2", [P("x_9", 1)]), k="elem")
+    prop = dict(P("n1", 2), k="elem")
+    return [mk("c3", coll, "create-collection-child"), get("c3"), mk("c3", prop, "create-leaf-child"), get("c3.n2"),
+            mk("c5", prop, "create-leaf-child"), get("c5"), mk("c5", coll, "create-collection-child"),
+            mk("c3.n2", dict(C("n2", []), k="elem"), "create-collection-child"), get("c3.n2.n2")]
